@@ -3,6 +3,7 @@ import CMacVerif.Lemmas.RanluxSeed
 import CMacVerif.Lemmas.RanluxLcg
 import CMacVerif.Lemmas.RanluxSplit
 import CMacVerif.Lemmas.RanluxUse
+import CMacVerif.Lemmas.RanluxCtx
 /-!
 # C13 — the random stream is RANLUX (ranlxd2); same seed, same stream
 
@@ -448,6 +449,39 @@ theorem stream_tau_pos (seed : Int) (n : Nat) (hz : stream seed n ≠ 0) :
 
 example : ∃ seed : Int, ∃ n : Nat, 1 ≤ seed ∧ seed + n ≤ 2147483648 ∧ 2 ≤ n := ⟨42, 8, by decide, by decide, by decide⟩
 example : (0 : ℝ) ≤ 0.25 ∧ (0.25 : ℝ) < 1 := by norm_num
+
+/-! ## ownership of the streams: positions are handed out once -/
+
+/-- In the driver loop (one vector of generators owned by the driver, every task draws from the
+generator of the thread that executes it, by reference) no (thread, stream position) pair is
+handed out twice — whatever the tasks, their order, their contexts, and however many draws each
+takes depending on the values it sees. -/
+theorem positions_handed_out_once (ops : List Op) (g : Nat → State) (p : Nat → Nat) :
+    (runOps ops g p).Nodup := runOps_nodup ops g p
+
+/-- … and every thread receives the CONTIGUOUS positions `p t, p t + 1, …` of its own stream, in
+order: a second task / context / iteration continues where the first stopped. -/
+theorem positions_contiguous (ops : List Op) (g : Nat → State) (p : Nat → Nat) (t : Nat) :
+    ((runOps ops g p).filter (fun q => q.1 = t)).map Prod.snd
+      = List.range' (p t) (usedBy t ops g) := runOps_contiguous ops g p t
+
+/-- the value at position `a + b` of a stream is what a consumer sees as its `b`-th draw from
+the generator left behind by `a` earlier draws -/
+theorem draw_after (s : State) (a b : Nat) : draw exact (after exact s a) b = draw exact s (a + b) := by
+  unfold draw; rw [after_add]
+
+/-- the two modelled consumers leave the caller's generator exactly as many draws further as
+`runOps` books for them: `(3 + extra) * n` for a source task of `n` packets, one per packet plus
+three per re-emitted packet for a re-emission task -/
+theorem consumers_advance_exactly (extra n m : Nat) (thr : Int) (s : State) :
+    (sourceLoop extra n s).2 = after exact s ((sourceOp 0 extra n).draws s)
+    ∧ (reemitLoop thr m s).2.2 = after exact s ((reemitOp 0 thr m).draws s)
+    ∧ (reemitOp 0 thr m).draws s = m + 3 * (reemitLoop thr m s).2.1.length :=
+  ⟨(sourceLoop_state extra n s).1, (reemitLoop_state thr m s).1, (reemitLoop_state thr m s).2⟩
+
+example : runOps [sourceOp 0 1 2, reemitOp 1 5 3, sourceOp 0 1 1] (fun _ => seedState exact 42)
+    (fun _ => 0) ≠ [] := by
+  simp [runOps, sourceOp]
 
 /-! ## non-vacuity -/
 
